@@ -118,7 +118,7 @@ func (c *Client) DescribeClientQuotas(ctx context.Context, req *DescribeClientQu
 		}
 	}
 	ret := &DescribeClientQuotasResponse{
-		Throttle: time.Duration(res.ThrottleTimeMs),
+		Throttle: makeDuration(res.ThrottleTimeMs),
 		Entries:  responseEntries,
 	}
 
